@@ -2,7 +2,7 @@
    `shipped_protocols` and `secure_flag` are regenerated from conf/pygopherd.conf and
    pygopherd/protocols/*.py on every run (Gen/Config.v). *)
 From Coq Require Import String.
-From PG Require Import Lib.Str Model.ProtoId Gen.Config Model.Detect Proofs.C02Facts Proofs.C02More.
+From PG Require Import Lib.Str Model.ProtoId Gen.Config Model.Detect Proofs.C02Facts Proofs.C02More Proofs.C02Spec.
 Local Open Scope N_scope.
 
 (* the answer is the FIRST protocol of the configured list that accepts — for every list and order *)
@@ -121,6 +121,43 @@ Theorem C02_gemini_https_commute :
     detect waptop (pre ++ PHttps :: PGemini :: post) tls req hdrs.
 Proof. exact gemini_https_commute. Qed.
 Print Assumptions C02_gemini_https_commute.
+
+(* "whose documented request shape it matches": each class's test (Model/Detect.v, the code's own string operations)
+   is equivalent to a declarative description of the request line *)
+Theorem C02_http_shape_documented :
+  forall req, http_shape req = true <->
+    exists m u v, req = m ++ 32 :: u ++ 32 :: v /\
+      mem_N 32 m = false /\ mem_N 32 u = false /\ mem_N 32 v = false /\
+      (strip m = GET \/ strip m = HEAD) /\ prefixb HTTPSL (strip v) = true.
+Proof. exact http_shape_spec. Qed.
+Print Assumptions C02_http_shape_documented.
+
+Theorem C02_gemini_shape_documented :
+  forall req, gemini_shape req = true <-> exists rest, req = GEMINI ++ rest.
+Proof. exact gemini_shape_spec. Qed.
+Print Assumptions C02_gemini_shape_documented.
+
+Theorem C02_spartan_shape_documented :
+  forall req, spartan_shape req = true <->
+    (all_ascii req = true /\
+     exists h p n, strip req = h ++ 32 :: p ++ 32 :: n /\
+       mem_N 32 h = false /\ mem_N 32 p = false /\ mem_N 32 n = false /\
+       h <> [] /\ p <> [] /\ n <> [] /\ forallb is_ascii_digit n = true).
+Proof. exact spartan_shape_spec. Qed.
+Print Assumptions C02_spartan_shape_documented.
+
+Theorem C02_gplus_shape_documented :
+  forall req, gplus_shape req = true <->
+    exists g, gplus_marker (strip g) = true /\ mem_N 9 g = false /\
+      ((exists sel, req = sel ++ 9 :: g /\ mem_N 9 sel = false) \/
+       (exists sel q, req = sel ++ 9 :: q ++ 9 :: g /\ mem_N 9 sel = false /\ mem_N 9 q = false)).
+Proof. exact gplus_shape_spec. Qed.
+Print Assumptions C02_gplus_shape_documented.
+
+Theorem C02_gplus_marker_documented :
+  forall g, gplus_marker g = true <-> g = [33] \/ exists r, g = 43 :: r \/ g = 36 :: r.
+Proof. exact gplus_marker_spec. Qed.
+Print Assumptions C02_gplus_marker_documented.
 
 Example C02_example :
   detect shipped_waptop shipped_protocols false (lit "GET / HTTP/1.0"%string ++ [13;10]) [] = Some PHttp /\
